@@ -1076,6 +1076,43 @@ func (c *specCtx) call(n *ast.CallExpr) (sv, error) {
 		}
 		arr := e.ghostGet(c.st, g, t, e.sc.zero(t))
 		return c.mk(t.(*types.Array).Elem(), fmt.Sprintf("(select %s %s)", arr.S, k.S)), nil
+	case "chancap":
+		// chancap(ch): the capacity the channel was made with
+		v, err := c.eval(args[0])
+		if err != nil {
+			return sv{}, err
+		}
+		if _, ok := v.T.Underlying().(*types.Chan); !ok {
+			return sv{}, c.errf("chancap: not a channel")
+		}
+		e.chanCapFun()
+		return c.mk(tInt, fmt.Sprintf("(chan.cap %s)", v.S)), nil
+	case "held":
+		// held(x.mu): the function under verification holds the mutex field mu of *x (ghost kept by Lock/Unlock)
+		sel, ok := args[0].(*ast.SelectorExpr)
+		if !ok || len(args) != 1 {
+			return sv{}, c.errf("held(x.mutexField)")
+		}
+		xv, err := c.eval(sel.X)
+		if err != nil {
+			return sv{}, err
+		}
+		pt, ok := xv.T.Underlying().(*types.Pointer)
+		if !ok {
+			return sv{}, c.errf("held: %s is not a pointer to a struct", types.ExprString(sel.X))
+		}
+		stt, ok := pt.Elem().Underlying().(*types.Struct)
+		if !ok {
+			return sv{}, c.errf("held: %s is not a pointer to a struct", types.ExprString(sel.X))
+		}
+		for i := 0; i < stt.NumFields(); i++ {
+			if stt.Field(i).Name() == sel.Sel.Name {
+				key, _ := e.heapKey(pt.Elem(), i)
+				m := e.memGet(c.st, "ghost|held:"+key, "(Array Int Bool)")
+				return c.mk(tBool, fmt.Sprintf("(select %s %s)", m, xv.S)), nil
+			}
+		}
+		return sv{}, c.errf("held: no field %s", sel.Sel.Name)
 	case "sent", "sentval", "recvd", "closed", "selrecvd":
 		// ghost record of channel sends performed by the function under verification
 		v, err := c.eval(args[0])
